@@ -76,7 +76,13 @@ func concBody(x *Exec, raw json.RawMessage) {
 			}
 		})
 	}
+	g0, s0 := r.C.VerifTableResizes()
 	ok := x.Threads(bodies...)
+	if g1, s1 := r.C.VerifTableResizes(); g1 > g0 {
+		x.Count("table-grew")
+	} else if s1 > s0 {
+		x.Count("table-shrank")
+	}
 	for ti := range recs {
 		for _, rc := range recs[ti] {
 			x.Obsf("T%d %s", ti, rc.res.String())
